@@ -21,15 +21,32 @@ def finite(v):
 
 
 # ---- binary / reclassify --------------------------------------------------------------------------
-def binary_ref(v, values):
-    """1 exactly on the listed values, 0 on every other finite cell, None (= NaN) on NaN / +-inf."""
+# Cells arrive as Python floats / ints obtained with ndarray.tolist(): the conversion of a float32 / float64 /
+# int cell to a Python number is exact, and Python compares float with float and float with int exactly.  So
+# `b >= v` below compares the cell AS STORED IN THE RASTER'S OWN DTYPE with the float64 (or int) bin edge AS
+# GIVEN -- never a rounded copy of either (np.float32(0.1) = 0.100000001490116... is > 0.1).
+def f32(x):
+    """x rounded to the nearest float32, as an (exact) Python float."""
+    return float(np.float32(x))
+
+
+def binary_ref(v, values, f32_raster=False):
+    """1 exactly on the listed values, 0 on every other finite cell, None (= NaN) on NaN / +-inf.
+
+    f32_raster: the cell comes from a float32 raster.  A listed value x that is not float32-representable cannot
+    occur in such a raster at all; whether the cell float32(x) (the number a float32 raster holds where the user
+    wrote x) counts as "the listed value" is not settled by the statement -> TIE."""
     if not finite(v):
         return None
-    return 1 if any(v == x for x in values) else 0
+    if any(v == x for x in values):
+        return 1
+    if f32_raster and any(finite(x) and abs(float(x)) < 3e38 and v == f32(x) for x in values):
+        return TIE
+    return 0
 
 
 def reclassify_ref(v, bins, new_values):
-    """New value of the FIRST bin (linear scan) whose upper bound is >= v.
+    """New value of the FIRST bin (linear scan) whose upper bound is >= v (exact comparison, see above).
     None (= NaN) for NaN / +-inf cells and for finite values above the last bin."""
     if not finite(v):
         return None
